@@ -180,8 +180,12 @@ Section RunCases.
     | CM c => Ok (ser_mchk digits10 c)
     end.
 
+  (* Numbers are abstract tokens in Codec.v; their decimal text is read back only for finite values (the C05 decimal
+     theorems; operator>> rejects "inf" and "nan"), so a text that contains a non-finite number fails to load. *)
+  Definition tok_readable (t : tok K) : bool := match t with TNum x => isfinite K x | _ => true end.
   Definition chk_reload (c : anychk) : res anychk :=
     do t <- chk_text c;
+    if negb (forallb tok_readable t) then UB 95 else
     match c with
     | CP _ => do c' <- deser rd_pchk t; Ok (CP c')
     | CV _ => do c' <- deser rd_vchk t; Ok (CV c')
@@ -379,6 +383,7 @@ Section RunCases.
         else if String.eqb o "reload" then
           match chk_reload c with
           | Ok c' => SL [SY "reload"; SY "ok"] :: do_ops rs ops' c' idx
+          | UB 95 => [SL [SY "reload"; SY "stream_failed"]]
           | UB code => [SL [SY "reload"; SL [SY "ub"; SN (N.of_nat code)]]]
           end
         else [bad]
